@@ -2,13 +2,17 @@
 EXTENDS HistPool
 LA == << <<2, 4>>, <<4, 6>>, <<6, 8>> >>
 LB == << <<2, 4>>, <<4, 8>> >>
+LG1 == << <<2, 4>>, <<6, 8>>, <<10, 12>> >>
+LG2 == << <<2, 4>>, <<5, 7>>, <<10, 12>> >>
 MCSeeds == {
   [L |-> LA, keep |-> TRUE,  batch |-> << <<3, 1>>, <<5, 1>>, <<5, 1>> >>, weighted |-> FALSE, dtype |-> "i8", den |-> 1, name |-> 1],
   [L |-> LA, keep |-> TRUE,  batch |-> << <<1, 1>>, <<4, 2>>, <<9, 1>> >>, weighted |-> TRUE,  dtype |-> "i8", den |-> 1, name |-> 2],
   [L |-> LA, keep |-> TRUE,  batch |-> << <<7, 1>>, <<8, 3>> >>,           weighted |-> TRUE,  dtype |-> "f8", den |-> 2, name |-> 1],
   [L |-> LA, keep |-> FALSE, batch |-> << <<2, 1>>, <<9, 1>> >>,           weighted |-> FALSE, dtype |-> "i8", den |-> 1, name |-> 1],
   [L |-> LA, keep |-> TRUE,  batch |-> << >>,                              weighted |-> FALSE, dtype |-> "i8", den |-> 1, name |-> 1],
-  [L |-> LB, keep |-> TRUE,  batch |-> << <<3, 1>>, <<7, 1>> >>,           weighted |-> FALSE, dtype |-> "i8", den |-> 1, name |-> 1]
+  [L |-> LB, keep |-> TRUE,  batch |-> << <<3, 1>>, <<7, 1>> >>,           weighted |-> FALSE, dtype |-> "i8", den |-> 1, name |-> 1],
+  [L |-> LG1, keep |-> TRUE, batch |-> << <<3, 1>>, <<7, 2>>, <<11, 1>> >>, weighted |-> TRUE, dtype |-> "f8", den |-> 2, name |-> 1],
+  [L |-> LG2, keep |-> TRUE, batch |-> << <<3, 2>>, <<5, 1>>, <<11, 1>> >>, weighted |-> TRUE, dtype |-> "f8", den |-> 2, name |-> 1]
 }
 MCIds == 1..3
 MCOps == {"New", "Add", "IAdd", "AddRefused", "IAddRefused", "ForeignRefused", "Copy"}
